@@ -10,7 +10,8 @@ Next == \/ i = 0 /\ i' \in {-b : b \in 1..NB}
         \/ i < 0 /\ i' \in (((-i) - 1) * BSize + 1)..(IF (-i) * BSize < N THEN (-i) * BSize ELSE N)
 Spec == Init /\ [][Next]_i
 Clauses(c) ==
-  LET r == Apply(c.op, c.cfg, c.pre, c.v)
+  LET regs == {c.regs[k] : k \in 1..Len(c.regs)}
+      r == Apply(c.op, c.cfg, c.pre, c.v, regs)
       bad(m) == c.calls[m] # r.calls[m]
   IN (IF c.exc = r.exc THEN {} ELSE {"exception"})
      \cup (IF Readable(c.post) = Readable(r.val) \/ c.cfg.kind = "event" THEN {} ELSE {"stored-value"})
@@ -18,7 +19,7 @@ Clauses(c) ==
      \cup {"calls-" \o m : m \in {x \in Mechs : bad(x)}}
      \* the property itself, on the observed calls (independent of the code-shaped filters above)
      \cup (IF c.op = "assign" /\ c.exc = "" /\ c.cfg.kind = "trait" /\
-              \E m \in Mechs : Len(c.calls[m]) # (IF IsChange(c.cfg.mode, Readable(c.pre), c.v) THEN 1 ELSE 0)
+              \E m \in Mechs : Len(c.calls[m]) # (IF Registered(c.cfg, regs, m) /\ IsChange(c.cfg.mode, Readable(c.pre), c.v) THEN 1 ELSE 0)
            THEN {"C02-exactly-once"} ELSE {})
 Judge == i <= 0 \/ LET f == Clauses(Trace[i]) IN IF f = {} THEN TRUE ELSE PrintT(<<"REJECT", i, f>>)
 AllJudged == TLCGet("distinct") = N + NB + 1
